@@ -107,7 +107,7 @@ def gen_case(rng, i):
 def _rows(df, keys):
     out = []
     for _, row in df.iterrows():
-        out.append([float(row["r"]), int(row["l"])] + [int(row[k]) for k in keys])
+        out.append([float(row["r"]), int(row["l"])] + [(None if row[k] != row[k] else int(row[k])) for k in keys])
     return out
 
 
